@@ -4,8 +4,34 @@ Open Scope Z_scope.
 
 (* COMPLETED is absorbing for task.complete: completing a task that already
    has a response changes nothing (no second response, no worker change,
-   no output). *)
+   no output) ... *)
 Theorem completed_absorbing : forall s t r0 r b,
   t_resp (get_task s t) = Some r0 -> complete_task t r b s = s.
 Proof. exact completed_absorbing. Qed.
 Print Assumptions completed_absorbing.
+
+(* ... and over every run from every state: once a task has a response, every
+   later state records the same response (no event list, whatever the hints,
+   ever changes or clears it). *)
+Theorem completed_absorbing_run : forall evs s t r,
+  t_resp (get_task s t) = Some r -> t_resp (get_task (fst (run s evs)) t) = Some r.
+Proof. exact completed_absorbing_run. Qed.
+Print Assumptions completed_absorbing_run.
+
+(* sync_tells_assigned: whenever an event makes a Synchronize call answer
+   "execute", some worker is assigned a task in the state the event leaves
+   behind and the answer is exactly that task's desired state (digest,
+   do_not_cache, timeout, queued timestamp, instance name suffix).  For every
+   state and event (no reachability hypothesis). *)
+Theorem sync_tells_assigned : forall s eh c dg dnc tm qts sfx z,
+  In (OSync c (DExec dg dnc tm qts sfx) z) (snd (step s eh)) ->
+  let s' := fst (step s eh) in
+  exists w t, k_task (get_worker s' w) = Some t /\ exec_desired s' t = DExec dg dnc tm qts sfx.
+Proof. exact sync_tells_assigned_step. Qed.
+Print Assumptions sync_tells_assigned.
+
+(* NOT PROVED (docs/areas/Sched-proofs.md):
+   Theorem sched_exclusive : forall cfg t0 evs, fresh_calls [] evs -> c01_dump (observe (fst (run (init cfg t0) evs))) = ""
+     (t_worker t = Some w <-> k_task w = Some t; queued operations are registered, their task has no worker
+      and no response, no operation queued twice);
+   Theorem no_start_after_complete (the task named by sync_tells_assigned has no response). *)
